@@ -12,7 +12,8 @@ EXPLANATION = (
     "wait_duration_in_open and after the transition to HalfOpen; (WRITERS) the state and its timestamp are "
     "written only by the one transition function and the constructor; (SHARE) Clone of both services shares the "
     "same Arc<Mutex<Circuit>> and the circuit type is crate-private, so every access is under the lock. Not "
-    "decided: wall-clock ordering of 'observed open' against calls admitted before the transition.")
+    "decided: wall-clock ordering of 'observed open' against calls admitted before the transition."
+    ' The open-wait guard is recognised in its elapsed, duration_since and deadline (`now >= start.checked_add(wait)?`) forms; no panicking Instant/Duration operator touches the configured wait (NO-PANIC-ARITH).')
 RULE = "one obligation per wrapped-service call site (ADMIT/NOREACH), per true-return in the Open arm, per writer of state, per Arc field of Clone"
 TRUSTED = ["tokio::sync::Mutex", "std::time::Instant", "rustc MIR construction"]
 ASSUMPTIONS = ["the admission function is the workspace-local bool function whose true edge dominates the wrapped call"]
